@@ -406,3 +406,7 @@ def run(ctx, rep):
     # ... and it goes back to the epoch the re-delivered message itself carries, not to one derived from the group's current epoch
     # (an old applied commit delivered again must not undo a later one): the rollback-arm clause of C01
     c01.clause_rollback_arm(prog, rep)
+    rep.clause("C07.10 a later copy of the own-message echo rewrites nothing: only Created / Retryable records take the confirming arm (transition table shared with C02)")
+    import c02
+    _roots, _scope = c02.recv_scope(prog)
+    c02.clause_echo_table(prog, rep, _scope)
